@@ -63,6 +63,29 @@ type c10Replay struct {
 	// Variant: "" = offline-mode proxy; online | online+force-offline | offline+force-online (PreLoginEvent
 	// result) | key (1.19.x client with a valid profile key) | no-force-key (forceKeyAuthentication: false)
 	Variant string `json:"variant,omitempty"`
+	// Holder: the profile id the CLIENT announces in its login start (1.19.1+): "" = absent / nil UUID,
+	// correct = the vanilla offline UUID, foreign = another player's offline UUID, ones = ff..ff
+	Holder string `json:"holder,omitempty"`
+}
+
+// announcedID is the profile id a client writes into its login start.
+func announcedID(kind, name string) uuid.UUID {
+	switch kind {
+	case "correct":
+		return refOfflineUUID(name)
+	case "foreign":
+		if name == "Notch" {
+			return refOfflineUUID("jeb_")
+		}
+		return refOfflineUUID("Notch")
+	case "ones":
+		var u uuid.UUID
+		for i := range u {
+			u[i] = 0xff
+		}
+		return u
+	}
+	return uuid.Nil
 }
 
 // refBackendWireLogin is the ServerLogin a keyless player's backend must receive, by protocol era.
@@ -196,9 +219,16 @@ func (h *c10) login(name, path string, protocol proto.Protocol, fwd config.Forwa
 }
 
 func (h *c10) loginV(name, path string, protocol proto.Protocol, fwd config.ForwardingMode, variant string, count bool) {
+	h.loginH(name, path, protocol, fwd, variant, "", count)
+}
+
+func (h *c10) loginH(name, path string, protocol proto.Protocol, fwd config.ForwardingMode, variant, holder string, count bool) {
 	r := h.r
 	r.Eval(1)
-	rp := c10Replay{Kind: "login", Name: hex.EncodeToString([]byte(name)), Path: path, Proto: int(protocol), Fwd: string(fwd), Variant: variant}
+	rp := c10Replay{Kind: "login", Name: hex.EncodeToString([]byte(name)), Path: path, Proto: int(protocol), Fwd: string(fwd), Variant: variant, Holder: holder}
+	if holder != "" {
+		r.Class("client-announced-id:" + holder)
+	}
 	cfg := kitConfig()
 	cfg.OnlineMode = strings.HasPrefix(variant, "online")
 	cfg.Forwarding.Mode = fwd
@@ -230,19 +260,21 @@ func (h *c10) loginV(name, path string, protocol proto.Protocol, fwd config.Forw
 		registeredAtLogin = s.Proxy.Player(e.Player().ID())
 	})
 
-	login := &packet.ServerLogin{Username: name}
+	login := &packet.ServerLogin{Username: name, HolderID: announcedID(holder, name)}
 	if variant == "key" {
 		login.PlayerKey = &kitClientKey{mojangValid: true}
 	}
 	decodeRejected := false
 	if path == "wire" {
 		login = &packet.ServerLogin{}
-		err := login.Decode(&proto.PacketContext{Direction: proto.ServerBound, Protocol: protocol}, bytes.NewReader(refWireLogin(name, uuid.Nil)))
+		err := login.Decode(&proto.PacketContext{Direction: proto.ServerBound, Protocol: protocol}, bytes.NewReader(refWireLogin(name, announcedID(holder, name))))
 		if err != nil {
 			decodeRejected = true // the read loop drops the connection on a decode error: not admitted
 		} else if login.Username != name {
 			r.Violation("ServerLogin.Decode/username-altered", fmt.Sprintf("sent %q decoded %q", name, login.Username), rp)
 			return
+		} else if holder != "" && login.HolderID != announcedID(holder, name) {
+			r.NotExhaustive("harness: the announced profile id did not survive ServerLogin.Decode, the holder dimension is not driven on the wire path")
 		}
 	}
 	var pan any
@@ -356,7 +388,7 @@ func TestVerif(t *testing.T) {
 			if rp.Kind == "uuid" {
 				h.checkUUID(string(nb))
 			} else {
-				h.loginV(string(nb), rp.Path, proto.Protocol(rp.Proto), config.ForwardingMode(rp.Fwd), rp.Variant, false)
+				h.loginH(string(nb), rp.Path, proto.Protocol(rp.Proto), config.ForwardingMode(rp.Fwd), rp.Variant, rp.Holder, false)
 			}
 			return
 		}
@@ -449,6 +481,18 @@ func TestVerif(t *testing.T) {
 				h.login(name, "handler", p1202, config.LegacyForwardingMode, false)
 				h.login(name, "handler", version.Minecraft_1_8.Protocol, config.NoneForwardingMode, false)
 				h.login(name, "handler", version.Minecraft_1_19_3.Protocol, config.NoneForwardingMode, false)
+			}
+			// the profile id the client announces in its login start (optional 1.19.1-1.20.1, always from 1.20.2) must
+			// not influence the offline identity; absent / nil is what all runs above send
+			if refNameOK(name) || i%61 == 0 {
+				for _, holder := range []string{"correct", "foreign", "ones"} {
+					h.loginH(name, "handler", p1202, config.NoneForwardingMode, "", holder, false)
+					h.loginH(name, "handler", version.Minecraft_1_19_3.Protocol, config.NoneForwardingMode, "", holder, false)
+					h.loginH(name, "handler", p1202, config.NoneForwardingMode, "online+force-offline", holder, false)
+				}
+				h.loginH(name, "wire", p1202, config.NoneForwardingMode, "", "foreign", false)
+				h.loginH(name, "handler", version.Minecraft_1_19_1.Protocol, config.NoneForwardingMode, "no-force-key", "foreign", false)
+				h.loginH(name, "handler", p1202, config.LegacyForwardingMode, "", "foreign", false)
 			}
 		}
 	})
